@@ -65,16 +65,18 @@ Definition hub_live_all (first kept : N) (h : hub) (p : pass) (b : block) : hub 
         end
     end.
 
+Definition hprod := hub -> block -> hub * list event.
+
 (* ---- the fan-out of Model/HubSubs.v for an arbitrary event production function ----
    hp h b = (hub after the live block b, events handed to processBlock meanwhile).  HubSubs.push_block is
    the instance hp := hub_live .. (PBlocks []) (provably, [push_block_g_old] in Proofs/C08_HubAll.v). *)
-Definition push_block_g (hp : hub -> block -> hub * list event) (sh : shub) (b : block) : shub * list event :=
+Definition push_block_g (hp : hprod) (sh : shub) (b : block) : shub * list event :=
   let '(h', evs) := hp (sh_hub sh) b in
   (mkSH h' (fold_left fan_out evs (sh_subs sh)), evs).
 
 (* the faithful instance.  pf b = what the one-block store offers when the live block b arrives (PNil: no
    one-block source could be built; PBlocks l: the source plays l, filtered from the start block on) *)
-Definition hub_push_all (first kept : N) (pf : block -> pass) (h : hub) (b : block) : hub * list event :=
+Definition hub_push_all (first kept : N) (pf : block -> pass) : hprod := fun h b =>
   let '(h', evs, _) := hub_live_all first kept h (pf b) b in (h', evs).
 
 (* one push with an explicit pass (the form the correspondence check runs) *)
